@@ -134,6 +134,20 @@ func writeEvidence(cfg *supConfig, p props.Property, agg *aggregate, wall float6
 	if len(samples) == 0 {
 		samples = append(samples, "no non-trivial run in this batch")
 	}
+	// grid cells ("cell:" probes) are summarised, not listed
+	probes := map[string]int{}
+	cells, minHits := 0, -1
+	for k, v := range agg.Probes {
+		if strings.HasPrefix(k, "cell:") {
+			cells++
+			if minHits < 0 || v < minHits {
+				minHits = v
+			}
+			continue
+		}
+		probes[k] = v
+	}
+	agg.Probes = probes
 	hours := wall / 3600
 	if hours <= 0 {
 		hours = 1e-9
@@ -159,6 +173,8 @@ func writeEvidence(cfg *supConfig, p props.Property, agg *aggregate, wall float6
 		"components_stub":         componentsStub,
 		"components_not_run":      componentsNotRun,
 		"known_findings_seen":     known,
+		"grid_cells_hit":          cells,
+		"grid_cell_min_hits":      minHits,
 		"workers":                 cfg.Workers,
 		"exhaustive":              false,
 	}
